@@ -352,7 +352,7 @@ func buildWorker(scratch string) (bin string, counts map[string]int) {
 	}
 	twin := filepath.Join(scratch, "conc_reader_sched.go")
 	os.WriteFile(twin, out, 0o644)
-	vs, err := os.ReadFile("/verif/overlay/racvsched/vsched.go.txt")
+	vs, err := os.ReadFile(ev.Root + "/overlay/racvsched/vsched.go.txt")
 	if err != nil {
 		ev.Fatal("%v", err)
 	}
@@ -367,7 +367,7 @@ func buildWorker(scratch string) (bin string, counts map[string]int) {
 	os.WriteFile(ovPath, b, 0o644)
 	bin = filepath.Join(scratch, "c14worker")
 	cmd := exec.Command("go", "build", "-tags", "verif", "-overlay", ovPath, "-o", bin, "./checks/c14/worker")
-	cmd.Dir = "/verif"
+	cmd.Dir = ev.Root
 	if o, err := cmd.CombinedOutput(); err != nil {
 		ev.Fatal("building the scheduled twin failed: %v\n%s", err, o)
 	}
